@@ -36,7 +36,10 @@ def generate(rng, tier, idx, real_set=False):
         ops.extend(kit.build(K, rng, slot=slot, permute=slot > 0 or rng.random() < 0.5))
         if slot == via_restart:
             p = kit.path + ".s%d" % slot
-            ops.append({"op": "dump", "path": p, "slot": slot})
+            d = kit.dump_op(K, rng, slot, main_variant="random")      # what the file names as main variant is not content
+            d["path"] = p
+            d.pop("to", None)
+            ops.append(d)
             ops.append({"op": "restart", "path": p, "slot": slot, "via": pick(rng, ["path", "handle", "loads"]), "offset": rng.randint(0, 200)})
         if rng.random() < 0.4:
             ops.append({"op": "redump_same", "slot": slot, "n": rng.randint(2, 3)})
@@ -57,6 +60,17 @@ def generate(rng, tier, idx, real_set=False):
     elif not first_cmp:
         ops.append({"op": "cmp_slots"})
     ops.append({"op": "dump", "path": kit.path})
+    # "...not on what was at the destination before": the same path is written again after the content got shorter, or
+    # after somebody else left a longer file there
+    r = rng.random()
+    if r < 0.35:
+        sh = kit.shrink(K, rng)
+        if sh is not None:
+            ops.append(sh)
+            ops.append({"op": "dump", "path": kit.path})
+    elif r < 0.55:
+        ops.append({"op": "fs_clobber", "path": kit.path, "how": pick(rng, ["longer", "garbage", "json"])})
+        ops.append({"op": "dump", "path": kit.path})
     cfg = kit.cfg(rng)
     if real_set:
         cfg["real_set"] = True
